@@ -7,6 +7,7 @@ import (
 	"io/fs"
 	"math"
 	"os"
+	"path/filepath"
 	"sort"
 	"strings"
 	"sync/atomic"
@@ -136,6 +137,8 @@ func ErrName(err error) string {
 		return "CLOSED"
 	case err == fs.ErrInvalid || errors.Is(err, fs.ErrInvalid):
 		return "EINVALH"
+	case errors.Is(err, filepath.ErrBadPattern):
+		return "EBADPAT"
 	case err == avfs.ErrPatternHasSeparator || strings.Contains(err.Error(), "pattern contains path separator"):
 		return "EPATSEP"
 	case strings.Contains(err.Error(), "too many links"):
